@@ -1861,17 +1861,138 @@ Proof.
       intros xo z Hxo Io Lo. destruct (Lo EReceiver ltac:(discriminate)) as [La _]. cbn in La.
       destruct (La rc Hr) as [_ He]. cbn in He. rewrite Hs in He. cbn in *. rewrite He. reflexivity. }
     destruct add as [a|].
-    + cbn. fold y1. fold y2. destruct (push_down_ch y2 c (AddChannelCapacity (y_k y0) a)) as [E3 E4].
+    + cbn. fold y1. fold y2. destruct (push_down_ch y2 c (AddChannelCapacity (y_k y) a)) as [E3 E4].
       split; [rewrite E4, E2, Y2, F1; exact Hk|]. rewrite E3, E1, Y3.
       eapply (PI_push_same (y_cl y2) ch' ch' c); [exact P2|apply same_ends_refl|exact Logic.I| |reflexivity].
       intros xo z Hxo Io Lo. destruct (Lo ESender ltac:(discriminate)) as [La _]. cbn in La.
-      destruct (Hse ESender) as []. destruct (Hse EReceiver) as [].
       assert (exists sc', ch_s ch' = Claimed c sc') as [sc' Hs'].
       { pose proof (Hse ESender) as H1. cbn in H1. rewrite Hs in H1. destruct (ch_s ch'); cbn in H1; try contradiction. subst. eauto. }
       assert (exists rc', ch_r ch' = Claimed ro rc') as [rc' Hr'].
       { pose proof (Hse EReceiver) as H1. cbn in H1. rewrite Hr in H1. destruct (ch_r ch'); cbn in H1; try contradiction. subst. eauto. }
       destruct (La sc' Hs') as [_ He]. cbn in He. rewrite Hr' in He. cbn in *. rewrite He. reflexivity.
     + cbn. fold y1. fold y2. split; [rewrite E2, Y2, F1; exact Hk|]. rewrite E1, Y3. exact P2.
+Qed.
+
+Lemma ci_add_capacity y c x k0 cap u :
+  CI y -> y_cl y !! c = Some x -> c_up x = AddChannelCapacity k0 cap :: u ->
+  good (broker_msg (put y c (x <| c_up := u |>)) c (AddChannelCapacity k0 cap)).
+Proof.
+  intros [Hk P] Hc Hu. set (y0 := put y c (x <| c_up := u |>)).
+  destruct (put_fields y c (x <| c_up := u |>)) as (F1 & F2 & F3). fold y0 in F1, F2, F3.
+  pose proof (PI_popped y c x u _ P Hc Hu eq_refl) as P0. fold y0 in P0.
+  assert (G0 : CI y0) by (split; [rewrite F1; exact Hk|rewrite F2; exact P0]).
+  cbn [broker_msg]. destruct (y_ch y0) as [ch|] eqn:Ech; [|exact G0].
+  assert (Ech' : y_ch y = Some ch) by (symmetry; exact F2). rewrite Ech' in P0.
+  destruct (chan_add_capacity ch c cap) as [| |ch' notify|site] eqn:Eac; [exact G0| | |exact Logic.I].
+  - apply remove_end_good; [apply G0|]. rewrite Ech. apply PI_weaken. exact P0.
+  - destruct (chan_add_capacity_update _ _ _ _ _ Eac) as (Hse & Hn).
+    set (y1 := y0 <| y_ch := Some ch' |>).
+    assert (Hy1 : y_cl y1 = y_cl y0 /\ y_k y1 = y_k y0 /\ y_ch y1 = Some ch') by (destruct y0; repeat split).
+    destruct Hy1 as (Y1 & Y2 & Y3).
+    destruct notify as [[so n]|].
+    + cbn. fold y1. destruct (push_down_ch y1 so (AddChannelCapacity (y_k y) n)) as [E1 E2].
+      split; [rewrite E2, Y2, F1; exact Hk|]. rewrite E1, Y3.
+      destruct (Hn so n eq_refl) as ((sc & Hs) & (ro & rc & Hr)).
+      eapply (PI_push_same (y_cl y0) ch ch' so); [exact P0|exact Hse|exact Logic.I| |exact Y1].
+      intros xo z Hxo Io Lo. destruct (Lo ESender ltac:(discriminate)) as [La _]. cbn in La.
+      destruct (La sc Hs) as [_ He]. cbn in He. rewrite Hr in He. cbn in *. rewrite He. reflexivity.
+    + cbn. fold y1. split; [rewrite Y2, F1; exact Hk|]. rewrite Y3, Y1.
+      intros c' x' Hx'. destruct (P0 c' x' Hx') as (z & I & L). exists z. split; [exact I|eapply linkx_same_ends; eassumption].
+Qed.
+
+Lemma ci_broker y c x m u :
+  CI y -> y_cl y !! c = Some x -> c_up x = m :: u -> good (broker_msg (put y c (x <| c_up := u |>)) c m).
+Proof.
+  intros G Hc Hu. pose proof G as [Hk P]. destruct (P c x Hc) as (z & I & L).
+  pose proof (li_up_only _ _ I m ltac:(rewrite Hu; left)) as Hm.
+  destruct m; cbn in Hm; try contradiction.
+  - eapply ci_close; eassumption.
+  - eapply ci_claim; eassumption.
+  - eapply ci_add_capacity; eassumption.
+  - eapply ci_send_item; eassumption.
+Qed.
+
+(* ---------------------------------------------------------------- SDisconnect *)
+Lemma ci_disconnect y c : CI y -> good (broker_disconnect y c).
+Proof.
+  intros [Hk P]. unfold broker_disconnect. set (y0 := y <| y_cl ::= delete c |>).
+  assert (Hy0 : y_k y0 = y_k y /\ y_ch y0 = y_ch y /\ y_cl y0 = delete c (y_cl y)) by (destruct y; repeat split).
+  destruct Hy0 as (Y1 & Y2 & Y3).
+  assert (P0 : PI None (y_cl y0) (y_ch y0)).
+  { rewrite Y2, Y3. intros c' x' Hx'. apply lookup_delete_Some in Hx'. apply P. apply Hx'. }
+  assert (G0 : CI y0) by (split; [rewrite Y1; exact Hk|exact P0]).
+  assert (Hsecond : forall y1, CI y1 ->
+            good (match y_ch y1 with
+                  | Some ch => if owned_by c (ch_r ch) then b_remove_end y1 EReceiver else COk y1
+                  | None => COk y1 end)).
+  { intros y1 G1. destruct (y_ch y1) as [ch|]; [|exact G1]. destruct (owned_by c (ch_r ch)); [|exact G1].
+    apply remove_end_good; [apply G1|]. apply PI_weaken. apply G1. }
+  unfold cbind. destruct (y_ch y0) as [ch|] eqn:Ech.
+  - destruct (owned_by c (ch_s ch)).
+    + pose proof (remove_end_good y0 ESender (proj1 G0) ltac:(apply PI_weaken; exact P0)) as R1.
+      destruct (b_remove_end y0 ESender) as [y1| | | |site]; cbn in R1; try contradiction; [|exact Logic.I].
+      apply Hsecond. exact R1.
+    + pose proof (Hsecond y0 G0) as H2. rewrite Ech in H2. exact H2.
+  - pose proof (Hsecond y0 G0) as H2. rewrite Ech in H2. exact H2.
+Qed.
+
+(* ---------------------------------------------------------------- every step, every schedule *)
+Definition fine (r : cres) : Prop :=
+  match r with COk y' => CI y' | CDisabled | CBrokerPanic _ => True | CReject _ | CPanic _ _ => False end.
+
+Lemma PI_update y c x x2 :
+  PI None (y_cl y) (y_ch y) -> y_cl y !! c = Some x ->
+  (forall z, LI x z -> linkx None (y_ch y) c z (c_q x) -> exists z2, LI x2 z2 /\ linkx None (y_ch y) c z2 (c_q x2)) ->
+  PI None (y_cl (put y c x2)) (y_ch (put y c x2)).
+Proof.
+  intros P Hc Hupd. destruct (put_fields y c x2) as (_ & F2 & F3). rewrite F2, F3.
+  intros c' x' Hx'. destruct (decide (c' = c)) as [->|Hne].
+  - rewrite lookup_insert in Hx'. inversion Hx'; subst x'. destruct (P c x Hc) as (z & I & L). apply (Hupd z I L).
+  - rewrite lookup_insert_ne in Hx' by congruence. apply P. exact Hx'.
+Qed.
+
+Lemma ci_step y s : CI y -> fine (step fl y s).
+Proof.
+  intros G. pose proof G as [Hk P]. destruct s as [c o|c|c|c|c]; cbn [step].
+  - (* SApp *)
+    destruct (y_cl y !! c) as [x|] eqn:Hc; [|exact Logic.I].
+    destruct (app_step fl x o) as [x2|] eqn:Ha; [|exact Logic.I]. cbn.
+    split; [destruct (put_fields y c x2) as (F & _); rewrite F; exact Hk|].
+    eapply PI_update; [exact P|exact Hc|]. intros z I L.
+    destruct (LI_app x z o x2 I Ha) as (z2 & I2 & T & E). exists z2. split; [exact I2|eapply link_same; eassumption].
+  - (* SProc *)
+    destruct (y_cl y !! c) as [x|] eqn:Hc; [|exact Logic.I].
+    destruct (P c x Hc) as (z0 & I0 & _).
+    destruct (proc_step (y_k y) x) as [x2|site|] eqn:Hp; [| |exact Logic.I].
+    + cbn. split; [destruct (put_fields y c x2) as (F & _); rewrite F; exact Hk|].
+      eapply PI_update; [exact P|exact Hc|]. intros z I L. rewrite Hk in Hp.
+      destruct (LI_proc x z x2 I Hp) as (z2 & I2 & T & E). exists z2. split; [exact I2|eapply link_same; eassumption].
+    + rewrite Hk in Hp. exfalso. eapply proc_no_panic; eassumption.
+  - (* SRecv *)
+    destruct (y_cl y !! c) as [x|] eqn:Hc; [|exact Logic.I].
+    destruct (c_down x) as [|m d] eqn:Hd; [exact Logic.I|].
+    destruct (P c x Hc) as (z0 & I0 & _). destruct (recv_accepts x z0 m d I0 Hd) as [k' Hr]. rewrite Hr. cbn.
+    split; [destruct (put_fields y c (x <| c_down := d |> <| c_core := k' |>)) as (F & _); rewrite F; exact Hk|].
+    eapply PI_update; [exact P|exact Hc|]. intros z I L. exists z. split; [eapply LI_recv; eassumption|].
+    destruct x; exact L.
+  - (* SBroker *)
+    destruct (y_cl y !! c) as [x|] eqn:Hc; [|exact Logic.I].
+    destruct (c_up x) as [|m u] eqn:Hu; [exact Logic.I|].
+    pose proof (ci_broker y c x m u G Hc Hu) as H.
+    destruct (broker_msg (put y c (x <| c_up := u |>)) c m); cbn in H |- *; try contradiction; exact H.
+  - (* SDisconnect *)
+    destruct (y_cl y !! c) as [x|] eqn:Hc; [|exact Logic.I].
+    pose proof (ci_disconnect y c G) as H.
+    destruct (broker_disconnect y c); cbn in H |- *; try contradiction; exact H.
+Qed.
+
+Theorem ci_run sched : forall y, CI y -> fine (run fl y sched).
+Proof.
+  induction sched as [|s sched IH]; intros y G; cbn [run]; [exact G|].
+  pose proof (ci_step y s G) as H. destruct (step fl y s) as [y'| | | |site]; cbn in H; try contradiction.
+  - apply IH. exact H.
+  - apply IH. exact G.
+  - exact Logic.I.
 Qed.
 
 End ChanEnds.
